@@ -60,6 +60,15 @@ let rlist (rd : toks -> 'a) t : 'a list = let n = ri t in List.init n (fun _ -> 
 let rfl t = rlist rf t
 let ropt (rd : toks -> 'a) t : 'a option = match next t with "N" -> None | "S" -> Some (rd t) | s -> raise (Bad ("opt " ^ s))
 
+(* one compartment: dz dzsum zmid layer th_dry th_wp th_fc th_s ksat tau pen acr bcr *)
+let rcomp t : float comp =
+  let dz = rf t in let dzsum = rf t in let zmid = rf t in let layer = rz t in
+  let dry = rf t in let wp = rf t in let fc = rf t in let s = rf t in
+  let ksat = rf t in let tau = rf t in let pen = rf t in let acr = rf t in let bcr = rf t in
+  { c_dz = dz; c_dzsum = dzsum; c_zmid = zmid; c_layer = layer; c_th_dry = dry; c_th_wp = wp; c_th_fc = fc;
+    c_th_s = s; c_ksat = ksat; c_tau = tau; c_pen = pen; c_acr = acr; c_bcr = bcr }
+let rprof t : float comp list = rlist rcomp t
+
 let buf = Buffer.create 65536
 let wf (x : float) = Buffer.add_string buf (Printf.sprintf "%016Lx " (Int64.bits_of_float x))
 let wi (n : int) = Buffer.add_string buf (string_of_int n); Buffer.add_char buf ' '
